@@ -12,6 +12,9 @@ length, overlap, record length and per-setup gain vector the merged matrix of `f
 do not commute), where (i) does not apply.
 The class route (`MultiSetup_PreGER` + `FDD_MS` / `EFDD_MS` / `pLSCF_MS`, `result.{freq,Sy}`) is walked over every
 placement of the references inside each setup's channel list.
+The segment-length axis holds powers of two AND lengths that are not (odd: 65, 127, ...; even: 100) on both routes: on every
+point the returned frequency vector has to be the single-setup grid k*fs/nxseg, k = 0..floor(nxseg/2) (for an odd nxseg the
+last line lies below fs/2, and nxseg*pov is not an integer).
 """
 import itertools
 
@@ -38,7 +41,14 @@ ASSUMPTIONS = [
     "the per-setup and the mean reference block, computed with SD_est from the known recording, have cond <= 1e6",
     "tolerance 1e-8 relative to the largest entry of the block at that line (observed 4e-16 on the repaired tree)",
     "every setup has at least one roving channel; merged order = references, then roving channels in setup order",
+    "segment lengths: powers of two plus odd (65, 127; thorough also 255, 2047) and even non-power-of-two (100) values, on the "
+    "function route and on the class route; the 'same frequency grid' clause is judged on every point against both "
+    "k*fs/nxseg (k = 0..floor(nxseg/2)) and the vector SD_est returns for the single-setup estimate",
 ]
+
+NXSEG_ODD_QUICK = (65, 127)             # odd segment lengths: the last line is below fs/2, nxseg*pov is not an integer
+NXSEG_ODD_THOROUGH = (65, 127, 255, 2047)
+NXSEG_EVEN_NP2 = (100,)                 # even, not a power of two
 
 TOL = 1e-8
 COND_MAX = 1e6
@@ -181,8 +191,13 @@ def judge(t, route, case, cfgtxt, freq, Sy, ex, Xs, layout, gains, nxseg, pov, m
     freq = np.asarray(freq, dtype=float)
     want_f = np.arange(nf) * FS / nxseg
     if freq.shape != want_f.shape or not np.all(np.abs(freq - want_f) <= 1e-12 * FS) or not np.array_equal(freq, ex.freq):
-        t.violation(f"{route}:freq:{method}", f"{route} {method}: frequency vector is not the single-setup grid k*fs/nxseg (k=0..nxseg/2); {cfgtxt}", case)
+        t.violation(f"{route}:freq:{method}", f"{route} {method}: frequency vector is not the single-setup grid k*fs/nxseg (k=0..floor(nxseg/2)); {cfgtxt}", case)
         return False
+    rt = "function" if route == "SD_PreGER" else "class"
+    if nxseg % 2:
+        t.outcomes[f"odd-nxseg:grid-is-single-setup-grid:{rt}:{method}"] += 1
+    elif nxseg & (nxseg - 1):
+        t.outcomes[f"even-non-power-of-two-nxseg:grid-is-single-setup-grid:{rt}:{method}"] += 1
     Sy = np.asarray(Sy)
     if Sy.shape != (n, k, nf):
         t.violation(f"{route}:shape:{method}", f"{route} {method}: Sy has shape {Sy.shape}, required (n_ref + sum n_mov, n_ref, n_f) = {(n, k, nf)}; {cfgtxt}", case)
@@ -271,6 +286,8 @@ def judge(t, route, case, cfgtxt, freq, Sy, ex, Xs, layout, gains, nxseg, pov, m
             t.outcomes[f"gain-only-changes-mean-reference-block:{method}"] += 1
     if good:
         t.outcomes[f"relations-hold:{method}"] += 1
+        if nxseg % 2:
+            t.outcomes[f"odd-nxseg:relations-hold:{rt}:{method}"] += 1
     return good
 
 
@@ -462,11 +479,19 @@ def func_lattice(thorough):
     4-segment records, two gain vectors on the 6.5-segment ones.
     thorough: every layout (3..9 channels, 1..3 references, 2..4 setups) x method x overlap at (nxseg 64, 4 segments) with
     the full gain product; the other (nxseg, length) combinations on the layouts of <= 6 channels with the reduced gain walk;
-    nxseg 2048 on <= 5 channels."""
+    nxseg 2048 on <= 5 channels.
+    segment lengths that are not powers of two, 4-segment records, two gain vectors (all ones, one mixed):
+    quick: odd 65, 127 and even 100 on every quick layout x method x overlap;
+    thorough: 65 on every layout, 127, 255 and 100 on <= 6 channels, 2047 on <= 5 channels, x method x overlap."""
     out = []
+    np2 = []        # the points with a segment length that is not a power of two; numbered after the others
     for layout in layouts(thorough):
         for method in ("per", "cor"):
             for pov in POVS:
+                for nxseg in sorted((NXSEG_ODD_THOROUGH if thorough else NXSEG_ODD_QUICK) + NXSEG_EVEN_NP2):
+                    if thorough and ((nxseg > 2000 and layout[0] > 5) or (nxseg != 65 and layout[0] > 6)):
+                        continue
+                    np2.append((layout, method, nxseg, pov, 4, "two"))
                 for nxseg in ((64, 128, 256, 2048) if thorough else (64, 128)):
                     for nseg in (4, 6.5):
                         if not thorough:
@@ -484,13 +509,16 @@ def func_lattice(thorough):
                         else:
                             continue
                         out.append((len(out), layout, method, nxseg, pov, nseg, walk))
+    for c in np2:
+        out.append((len(out),) + c)
     return out
 
 
 def class_lattice(thorough):
     out = []
+    np2 = []        # the points with a segment length that is not a power of two; numbered after the others
     all8 = [(m, p) for m in ("per", "cor") for p in POVS]
-    for layout in layouts(thorough):
+    for li, layout in enumerate(layouts(thorough)):
         if thorough and layout[0] > 7:
             continue
         for pi, place in enumerate(placement_sets(layout, thorough)):
@@ -502,6 +530,21 @@ def class_lattice(thorough):
                 combos = [("per", 0.25), ("cor", 0.5)]
             for method, pov in combos:
                 out.append((len(out), layout, place, method, 64, pov, 4.5))
+            # segment lengths that are not powers of two: the first placement (references leading) with an odd and an even
+            # value, the second one (references not leading) with the other odd value
+            if pi == 0:
+                two = [("per", 0.25), ("cor", 0.5)]
+                extra = [(m, p, 65) for m, p in (all8 if thorough else two)]
+                # the even value: quick with one estimator per layout, alternating over the layouts
+                extra += [(m, p, 100) for m, p in (two if thorough else [two[li % 2]])]
+            elif pi == 1:
+                extra = [(m, p, nx) for nx in ((127, 255) if thorough else (127,)) for m, p in [("per", 0.75), ("cor", 0.25)]]
+            else:
+                extra = []
+            for method, pov, nx in extra:
+                np2.append((layout, place, method, nx, pov, 4.5))
+    for c in np2:
+        out.append((len(out),) + c)
     return out
 
 
@@ -514,13 +557,17 @@ def explore(ctx):
                     "setups": sorted({len(l[2]) for l in lay}), "what": "every composition of the roving channels into setups of >= 1 channel"},
         "function_route": {"items": len(F), "methods": ["per", "cor"], "nxseg": sorted({c[3] for c in F}), "pov": list(POVS),
                            "nxseg_x_length": sorted({(c[3], c[5]) for c in F}), "gains": list(GAINS),
+                           "nxseg_odd": sorted({c[3] for c in F if c[3] % 2}), "nxseg_even_not_power_of_two": sorted({c[3] for c in F if not c[3] % 2 and c[3] & (c[3] - 1)}),
+                           "items_by_nxseg": {str(v): sum(1 for c in F if c[3] == v) for v in sorted({c[3] for c in F})},
                            "note": func_lattice.__doc__,
                            "different_records": "items with the full/reduced gain walk (quick: nxseg 64 only) are repeated with the setups cut from consecutive stretches of a "
                                                 "longer recording (all ones + one mixed gain vector): relations (ii) and (iii) only",
                            "gain_walks": {"full": "gains^setups (<= 3 setups)", "reduced(3 setups)": [list(v) for v in gain_vectors(3, "reduced")],
                                           "two(3 setups)": [list(v) for v in gain_vectors(3, "two")]},
                            "walk_by_item": {w: sum(1 for c in F if c[6] == w) for w in ("full", "reduced", "two")}},
-        "class_route": {"items": len(C), "classes": list(CLASSES), "classes_note": "quick: pLSCF_MS on every third (layout, placement) point", "nxseg": [64], "method_x_pov": sorted({(c[3], c[5]) for c in C}),
+        "class_route": {"items": len(C), "classes": list(CLASSES), "classes_note": "quick: pLSCF_MS on every third (layout, placement) point", "nxseg": sorted({c[4] for c in C}),
+                        "nxseg_note": "64 on every placement; not powers of two: 65 (odd; thorough: every method x overlap) and 100 (quick: one estimator per layout, alternating) on the first placement of every layout, 127 (thorough: and 255) on the second",
+                        "nxseg_x_method_x_pov": sorted({(c[4], c[3], c[5]) for c in C if c[4] != 64}), "method_x_pov": sorted({(c[3], c[5]) for c in C}),
                         "length_in_segments": [4.5], "variants": ["all ones", "gains (3, 1e-3, 1, ...)", "same gains, setups cut from different stretches of a longer recording (>= 2 references)"],
                         "placements": "full product of all ordered placements when every setup has <= 4 channels and the product is <= "
                                       + ("300" if ctx.thorough else "40") + "; else a covering set (leading, trailing, trailing reversed, "
@@ -538,7 +585,9 @@ def explore(ctx):
     ctx.require("single-setup-equal:per", "single-setup-equal:cor", "relations-hold:per", "relations-hold:cor",
                 "gain-only-changes-mean-reference-block:per", "gain-only-changes-mean-reference-block:cor",
                 "class-ok:FDD_MS", "class-ok:EFDD_MS", "class-ok:pLSCF_MS",
-                "general-relations-hold-on-different-records:per", "general-relations-hold-on-different-records:cor")
+                "general-relations-hold-on-different-records:per", "general-relations-hold-on-different-records:cor",
+                *[f"odd-nxseg:{what}:{rt}:{m}" for what in ("grid-is-single-setup-grid", "relations-hold") for rt in ("function", "class") for m in ("per", "cor")],
+                *[f"even-non-power-of-two-nxseg:grid-is-single-setup-grid:{rt}:{m}" for rt in ("function", "class") for m in ("per", "cor")])
 
 
 def _layout(l):
